@@ -115,15 +115,50 @@ func implUnmarshal(t *tm.Type, top bool, b []byte) (r decResult) {
 	return r
 }
 
+// remeasure repeats a decode that looked too expensive (TotalAlloc is process-wide) and returns the least cost seen.
+func remeasure(t *tm.Type, top bool, b []byte) uint64 {
+	least := ^uint64(0)
+	for i := 0; i < 3; i++ {
+		if d := implUnmarshal(t, top, b); d.alloc < least {
+			least = d.alloc
+		}
+	}
+	return least
+}
+
 // allocBound is what a decode of n input bytes may allocate: the decoded value (at most a small multiple
 // of the input: a vector of k-byte elements costs sizeof(element) per element) plus the per-member
 // bookkeeping of the reflective decoder, which is proportional to the number of members and therefore to n.
-func allocBound(n int) uint64 { return uint64(allocPerByte*n + allocConst) }
+func allocBound(t *tm.Type, n int) uint64 {
+	return uint64((allocPerByte+2*maxElemSize(t))*n + allocConst)
+}
 
 const (
 	allocPerByte = 64
-	allocConst   = 1 << 16
+	allocConst   = 1 << 13
 )
+
+// maxElemSize is the largest Go size of an element type of a vector of non-bytes inside t: the decoder
+// sizes such a vector by its byte length, so sizeof(element) per input byte is linear in the input.
+func maxElemSize(t *tm.Type) int {
+	m := 0
+	switch t.K {
+	case "vec":
+		if t.Elem.K != "byte" {
+			m = int(tm.GoType(t).Elem().Size())
+			if e := maxElemSize(t.Elem); e > m {
+				m = e
+			}
+		}
+	case "struct":
+		for _, f := range t.Fields {
+			if e := maxElemSize(f.T); e > m {
+				m = e
+			}
+		}
+	}
+	return m
+}
 
 // ---------------------------------------------------------------- diagnosis: which member is to blame
 
@@ -144,43 +179,51 @@ func short(b []byte) string {
 }
 
 // isolate re-runs every leaf of (t, v) alone in a one-member struct against the reference codec and
-// returns the kind of the first leaf on which the implementation disagrees.
-func isolate(t *tm.Type, v tm.Val) (kind, class string) {
-	for _, l := range tm.Leaves(t, v) {
-		if strings.HasSuffix(l.Path, ".len") {
-			continue
-		}
-		it := tm.Struct(tm.F("A", l.T))
-		iv := tm.Val{K: "struct", Items: []tm.Val{l.V}}
-		rb, rok := tm.RefEnc(it, iv)
-		gv, ok := tm.GoValue(it, iv)
-		if !ok {
-			continue
-		}
-		e := implMarshal(it, false, gv)
-		switch {
-		case e.panic != nil:
-			return l.T.KindName(), "panic"
-		case rok && e.err != nil:
-			return l.T.KindName(), "impl-rejects-valid"
-		case !rok && e.err == nil:
-			return l.T.KindName(), "impl-accepts-invalid"
-		case rok && !bytes.Equal(rb, e.b):
-			return l.T.KindName(), "wrong-bytes"
-		}
-		if rok {
-			d := implUnmarshal(it, false, rb)
+// returns the fingerprint of the first leaf on which the implementation disagrees (scalars and opaque
+// vectors first, then vectors of structs / integers as a whole).
+func isolate(t *tm.Type, v tm.Val) string {
+	leaves := tm.Leaves(t, v)
+	for pass := 0; pass < 2; pass++ {
+		for i := range leaves {
+			l := leaves[i]
+			if pass == 1 { // vectors of structs / integers as a whole, innermost first
+				l = leaves[len(leaves)-1-i]
+			}
+			if strings.HasSuffix(l.Path, ".len") != (pass == 1) {
+				continue
+			}
+			it := tm.Struct(tm.F("A", l.T))
+			iv := tm.Val{K: "struct", Items: []tm.Val{l.V}}
+			rb, rok := tm.RefEnc(it, iv)
+			gv, ok := tm.GoValue(it, iv)
+			if !ok {
+				continue
+			}
+			e := implMarshal(it, false, gv)
 			switch {
-			case d.panic != nil:
-				return l.T.KindName(), "panic"
-			case d.err != nil:
-				return l.T.KindName(), "impl-rejects-valid"
-			case !d.v.Equal(iv):
-				return l.T.KindName(), "wrong-value"
+			case e.panic != nil:
+				return l.T.KindName() + ":panic"
+			case rok && e.err != nil:
+				return l.T.KindName() + ":impl-rejects-valid"
+			case !rok && e.err == nil:
+				return l.T.KindName() + ":impl-accepts-invalid"
+			case rok && !bytes.Equal(rb, e.b):
+				return l.T.KindName() + ":wrong-bytes"
+			}
+			if rok {
+				d := implUnmarshal(it, false, rb)
+				switch {
+				case d.panic != nil:
+					return l.T.KindName() + ":panic"
+				case d.err != nil:
+					return l.T.KindName() + ":impl-rejects-valid"
+				case !d.v.Equal(iv):
+					return valueFingerprint(it, iv, d.v)
+				}
 			}
 		}
 	}
-	return "", ""
+	return ""
 }
 
 func valueFingerprint(t *tm.Type, want, got tm.Val) string {
@@ -199,10 +242,9 @@ func valueFingerprint(t *tm.Type, want, got tm.Val) string {
 }
 
 func (c *checker) violateAccept(where string, t *tm.Type, v tm.Val, class, fallback, what string, replay any) {
-	kind, cls := isolate(t, v)
-	fp := fallback + ":" + class
-	if kind != "" {
-		fp = kind + ":" + cls
+	fp := isolate(t, v)
+	if fp == "" {
+		fp = fallback + ":" + class
 	}
 	c.rep.Violate(fp, where+": "+what, replay)
 }
@@ -245,14 +287,14 @@ func (c *checker) checkDecode(t *tm.Type, top bool, orig tm.Val, b []byte, wantO
 		key = t.String() + "/" + tag
 	}
 	c.rep.Eval(key)
-	if over := int64(d.alloc) - int64(allocPerByte*len(b)); over > c.maxOver {
+	if over := int64(d.alloc) - int64((allocPerByte+2*maxElemSize(t))*len(b)); over > c.maxOver {
 		c.maxOver = over
 	}
 	switch {
 	case d.panic != nil:
 		c.rep.Violate("panic:Unmarshal:"+tag, fmt.Sprintf("tls.Unmarshal panics: %v; %s", d.panic, desc), replay)
 		return
-	case meter && d.alloc > allocBound(len(b)):
+	case meter && d.alloc > allocBound(t, len(b)) && remeasure(t, top, b) > allocBound(t, len(b)):
 		c.rep.Violate("alloc:Unmarshal:"+tag, fmt.Sprintf("tls.Unmarshal allocated %d bytes for %d input bytes; %s", d.alloc, len(b), desc), replay)
 	}
 	switch {
@@ -294,8 +336,8 @@ func (c *checker) lawReencode(t *tm.Type, top bool, b []byte, d decResult, tag s
 	consumed := b[:len(b)-len(d.rest)]
 	if e.panic != nil || e.err != nil || !bytes.Equal(e.b, consumed) {
 		l := "law:reencode-differs"
-		if kind, cls := isolate(t, d.v); kind != "" {
-			l = kind + ":" + cls
+		if fp := isolate(t, d.v); fp != "" {
+			l = fp
 		}
 		c.rep.Violate(l, fmt.Sprintf("type %s: tls.Unmarshal consumed %s and returned %s, which tls.Marshal turns into %s (err %v, panic %v)",
 			t, short(consumed), d.v, short(e.b), e.err, e.panic), replay)
